@@ -66,7 +66,12 @@ def special_addr(rng):
         return "0::" + v4
     if k < 0.85:
         return "0:0:0:0:0:ffff:" + v4
-    return rng.choice(["0::", "0::1", "1::", "ffff:ffff:ffff:ffff:ffff:ffff:ffff:ffff", "0:0:0:0:0:ffff:0:1", "0::ffff:0.0.0.1", "0::0.0.1.0", "0::1:0"])
+    return rng.choice(["0::", "0::1", "1::", "ffff:ffff:ffff:ffff:ffff:ffff:ffff:ffff", "0:0:0:0:0:ffff:0:1", "0::ffff:0.0.0.1", "0::0.0.1.0", "0::1:0",
+                       # next to the IPv4 forms: something in group 5 with ffff after it; periodic addresses (all four 32-bit words equal)
+                       "0:0:0:0:1234:ffff:102:304", "0::1:ffff:102:304", "0:0:0:0:ffff:ffff:1:2", "0:0:0:1:0:ffff:1:2",
+                       "0:1:0:1:0:1:0:1", "ffff:7:ffff:7:ffff:7:ffff:7", "1:1:1:1:1:1:1:1", "ffff:0:ffff:0:ffff:0:ffff:0",
+                       # the longest texts
+                       "1111:2222:3333:4444:5555:6666:7777:8888", "ABCD:EF01:2345:6789:ABCD:EF01:2345:6789"])
 
 
 def client_lines(rng, cid, addr, port, serial, services):
